@@ -224,6 +224,9 @@ type c06Config struct {
 	// registered: marker -> patterns reported to the handler's OnRegister callback
 	registered map[string][]string
 	service    *res.Service
+	// full patterns that carry listeners only (no handler): what a lookup gives for a name
+	// one of them matches is not stated - it must still not panic
+	listenerOnly []string
 }
 
 // c06Build builds the mux for the routes; returns the panic value if
@@ -334,8 +337,15 @@ func c06CheckLookup(c *core.Ctx, cfg *c06Config, name string) bool {
 		w := desc()
 		w["panic"] = fmt.Sprint(pn)
 		w["stack"] = short(stack, 1500)
+		w["listener_only_patterns"] = cfg.listenerOnly
 		c.Violation("C06/lookup-panic:"+cfg.arr, fmt.Sprintf("GetHandler(%q) panicked: %v", name, pn), w)
 		return false
+	}
+	for _, lp := range cfg.listenerOnly {
+		if _, ok := ref.Match(lp, name); ok {
+			c.Obs("lookups_matching_listener_only_patterns", 1)
+			return false
+		}
 	}
 	if !ref.ValidName(name) {
 		return false
@@ -713,6 +723,24 @@ func c06Random(c *core.Ctx, p c06Params) {
 				map[string]interface{}{"patterns": ps, "arrangement": cfg.arr, "panic": fmt.Sprint(pn)})
 			continue
 		}
+		if i%3 == 2 {
+			// patterns with listeners but no handler, registered last through the root
+			for k := 0; k < 1+r.Intn(3); k++ {
+				pat := c06RandPatternRoot(r, rootPath != "")
+				if k == 0 && !strings.HasSuffix(pat, ">") {
+					pat = mergeDots(pat, ">")
+				}
+				if seen[ref.Canon(pat)] || ref.PatternValidity(pat) != 1 {
+					continue
+				}
+				seen[ref.Canon(pat)] = true
+				// a placeholder named differently from one registered at the same position is refused
+				if try(func() { cfg.mux.AddListener(pat, func(*res.Event) {}) }) == nil {
+					cfg.listenerOnly = append(cfg.listenerOnly, mergeDots(rootPath, pat))
+					c.Obs("listener_only_patterns", 1)
+				}
+			}
+		}
 		for k := 0; k < 60; k++ {
 			rt := routes[r.Intn(len(routes))]
 			var name string
@@ -723,6 +751,9 @@ func c06Random(c *core.Ctx, p c06Params) {
 				name = mergeDots(rootPath, c17RandString(r, 5, 2, false))
 			default:
 				name = c17Instantiate(r, rt.Pattern, false)
+			}
+			if len(cfg.listenerOnly) > 0 && k%4 == 3 {
+				name = c17Instantiate(r, cfg.listenerOnly[r.Intn(len(cfg.listenerOnly))], k%8 == 3)
 			}
 			// bias instantiations towards tokens that appear as literals
 			if r.Intn(2) == 0 {
